@@ -19,6 +19,7 @@ import (
 	pb "github.com/imoore76/ldlm/protos"
 	"github.com/imoore76/ldlm/server"
 	"google.golang.org/grpc"
+	"google.golang.org/grpc/codes"
 	"google.golang.org/grpc/credentials"
 	"google.golang.org/grpc/credentials/insecure"
 	"google.golang.org/grpc/metadata"
@@ -39,8 +40,13 @@ type tlsInput struct {
 }
 
 type probe struct {
-	OK     bool   `json:"ok"` // an application-level answer of the ldlm handler was obtained over this transport
-	Detail string `json:"detail"`
+	OK bool `json:"ok"` // the expected application-level answer of the ldlm handler was obtained over this transport
+	// Reached: the transport let the request through to the server's request handling at all (any gRPC status that
+	// is not a connection failure / any HTTP response other than net/http's own "HTTP request to an HTTPS server").
+	// This, not OK, is what "the listener accepts this kind of client" means: a tree whose lock logic is broken
+	// still answers.
+	Reached bool   `json:"reached"`
+	Detail  string `json:"detail"`
 }
 
 type pwProbe struct {
@@ -236,13 +242,13 @@ func runTLSOne(data []byte, enc *json.Encoder) {
 	// Password over the wire, on the first transport that works.
 	if pw != "" {
 		for _, mode := range modes {
-			if out.Probes["grpc_"+mode].OK {
+			if out.Probes["grpc_"+mode].Reached {
 				out.PwProbes = append(out.PwProbes, grpcPasswordProbes(&in, ls, conf.ListenAddress, mode, pw, &out)...)
 				break
 			}
 		}
 		for _, mode := range modes {
-			if in.Rest && out.Probes["rest_"+mode].OK {
+			if in.Rest && out.Probes["rest_"+mode].Reached {
 				out.PwProbes = append(out.PwProbes, restPasswordProbes(&in, ls, restAddr, mode, pw, &out)...)
 				break
 			}
@@ -256,7 +262,7 @@ func runTLSOne(data []byte, enc *json.Encoder) {
 func grpcConnectivity(in *tlsInput, addr, mode, pw string) probe {
 	cl, closeFn, err := grpcClient(in, addr, mode)
 	if err != nil {
-		return probe{false, "client: " + err.Error()}
+		return probe{false, false, "client: " + err.Error()}
 	}
 	defer closeFn()
 	ctx, cancel := credCtx("right", pw)
@@ -265,15 +271,17 @@ func grpcConnectivity(in *tlsInput, addr, mode, pw string) probe {
 	name := "verif-conn-" + mode
 	r, err := cl.TryLock(ctx, &pb.TryLockRequest{Name: name, LockTimeoutSeconds: &to})
 	if err != nil {
-		return probe{false, status.Code(err).String() + ": " + status.Convert(err).Message()}
+		c := status.Code(err)
+		reached := c != codes.Unavailable && c != codes.DeadlineExceeded && c != codes.Canceled
+		return probe{false, reached, c.String() + ": " + status.Convert(err).Message()}
 	}
 	if !r.Locked {
-		return probe{false, "answered but not locked: " + r.String()}
+		return probe{false, true, "answered but not locked: " + r.String()}
 	}
 	ctx2, cancel2 := credCtx("right", pw)
 	defer cancel2()
 	cl.Unlock(ctx2, &pb.UnlockRequest{Name: name, Key: r.Key})
-	return probe{true, "TryLock locked"}
+	return probe{true, true, "TryLock locked"}
 }
 
 func restDo(c *http.Client, method, url, auth, cookie, body string) (int, string, []*http.Cookie, error) {
@@ -299,21 +307,23 @@ func restDo(c *http.Client, method, url, auth, cookie, body string) (int, string
 func restConnectivity(in *tlsInput, addr, mode, pw string) probe {
 	c, scheme, err := httpClient(in, mode)
 	if err != nil {
-		return probe{false, "client: " + err.Error()}
+		return probe{false, false, "client: " + err.Error()}
 	}
 	code, body, cookies, err := restDo(c, "POST", scheme+"://"+addr+"/session", basic("right", pw), "", "")
 	if err != nil {
-		return probe{false, err.Error()}
+		return probe{false, false, err.Error()}
 	}
 	if code != http.StatusCreated {
-		return probe{false, fmt.Sprintf("HTTP %d %q", code, body)}
+		// net/http's TLS listener answers a plaintext request itself, before any handler
+		own := code == http.StatusBadRequest && strings.HasPrefix(body, "Client sent an HTTP request to an HTTPS server")
+		return probe{false, !own, fmt.Sprintf("HTTP %d %q", code, body)}
 	}
 	for _, ck := range cookies {
 		if ck.Name == sessionCookie {
 			restDo(c, "DELETE", scheme+"://"+addr+"/session", basic("right", pw), ck.Value, "")
 		}
 	}
-	return probe{true, "POST /session 201"}
+	return probe{true, true, "POST /session 201"}
 }
 
 func grpcPasswordProbes(in *tlsInput, ls *server.LockServer, addr, mode, pw string, out *tlsOutput) []pwProbe {
